@@ -54,7 +54,8 @@ RULE = ("cases = (1-4 sockets inet/unix, stream / seqpacket / datagram as far as
         "not) files / stop, so that several worker generations are spawned while descriptor numbers of pipes and "
         "files move around); kind sim = real Arbiter commands on the simulated kernel; kind cfg = real Arbiter "
         "from a configuration file, reloadconfig after rewrites of the [socket:] sections (changed path / "
-        "backlog / type, deleted, added, two sockets on one path, replace), quit; kind live (thorough) = real "
+        "backlog / type, deleted, added, two sockets on one path, replace) and of the watcher sections (a watcher "
+        "added by a later version, an option changed so that the watcher is created anew), quit; kind live (thorough) = real "
         "forked children reporting their descriptor table, descriptor 0 included; every random choice from "
         "VERIF_SEED; non-trivial = a use_sockets worker of a second or later generation was handed a managed "
         "socket while an unrelated descriptor number had been reused (cfg: a reload really changed the dict); "
@@ -361,6 +362,14 @@ def gen_cfg(rng):
                    "args": " ".join(["run"] + ([] if in_cmd else toks)),
                    "np": rng.choice([1, 1, 2]), "pipe_out": False, "pipe_err": False, "max_retry": 2,
                    "stdin": (rng.choice(versions[0])["name"] if rng.random() < 0.2 else None)})
+        # watcher sections are rewritten too: the section appears only from a later version on (reloadconfig adds the
+        # watcher), or an option that is not numprocesses changes (reloadconfig stops the watcher and creates it anew) —
+        # the first workers of such a watcher must get the sockets like everybody else
+        gts = [0.3]
+        for _ in range(1, len(versions)):
+            gts.append(rng.choice([0.2, 0.4, 0.5]) if rng.random() < 0.35 else gts[-1])
+        ws[-1]["gt"] = gts
+        ws[-1]["from"] = rng.randrange(1, len(versions)) if (i > 0 and rng.random() < 0.4) else 0
     acts = []
     for v in range(1, len(versions)):
         if rng.random() < 0.4:
@@ -1065,8 +1074,11 @@ def _cfg_ini(case, version, d):
             t += "replace = True\n"
         t += "\n"
     for i, w in enumerate(case["watchers"]):
+        if w.get("from", 0) > version:
+            continue
         t += "[watcher:w%d]\ncmd = %s\nargs = %s\nnumprocesses = %d\nwarmup_delay = 0\n" % (i, w["cmd"], w["args"], w["np"])
-        t += "use_sockets = %s\nmax_retry = %d\ngraceful_timeout = 0.3\n" % (w["use_sockets"], w["max_retry"])
+        t += "use_sockets = %s\nmax_retry = %d\ngraceful_timeout = %s\n" % (w["use_sockets"], w["max_retry"],
+                                                                           (w.get("gt") or [0.3] * (version + 1))[version])
         if w.get("stdin") is not None:
             t += "stdin_socket = %s\n" % w["stdin"]
         t += "\n"
@@ -1137,6 +1149,8 @@ def _impl_cfg(case):
                 for w in arb.watchers:
                     if getattr(w, "_c07_spawning", False):
                         name = w.name
+                if name is None and spawning:
+                    name = spawning[-1]        # a watcher reloadconfig is creating: not yet in the arbiter's list
                 fdmap = dict((k.fileno(), n) for n, k in arb.sockets.items() if k.fileno() >= 0)
                 inh = _inherit(ph, kw.get("close_fds"), kw.get("pass_fds"))
                 p = inner(args, **kw)
@@ -1146,12 +1160,16 @@ def _impl_cfg(case):
                               "fd0": (None if src0 is None else [fdmap.get(src0)] + (describe(src0, ph) or [None] * 6)[:2])})
                 return p
 
+            spawning = []
+
             def spawn_process(self_, *a, **k):
                 self_._c07_spawning = True
+                spawning.append(self_.name)
                 try:
                     return orig_spawn(self_, *a, **k)
                 finally:
                     self_._c07_spawning = False
+                    spawning.pop()
             cp.Popen = popen
             W.Watcher.spawn_process = spawn_process
 
@@ -2017,6 +2035,17 @@ def oracle(case, obs):
                     fails.append(_fail("C07:leak-without-use_sockets",
                                        "%s: worker of %s (no use_sockets, stdin_socket=%r) would inherit %r"
                                        % (where, r["name"], w.get("stdin"), r["inherited"])))
+                # C07: every worker of a use_sockets watcher — the first ones of a watcher reloadconfig has just created
+                # included — gets the descriptor number of a socket the daemon holds in place of its reference
+                if w["use_sockets"]:
+                    have = set(str(nm).lower() for nm in r["fdmap"].values())
+                    for tok in r["argv"]:
+                        m = re.search(r"(?:\$\(|\(\()circus\.sockets\.([A-Za-z0-9_]+)\)", str(tok), re.I)
+                        if m and m.group(1).lower() in have:
+                            fails.append(_fail("C07:socket-reference-not-substituted",
+                                               "%s: worker of %s was given %r although the daemon holds socket %s (%r)"
+                                               % (where, r["name"], r["argv"], m.group(1), sorted(have))))
+                            break
     elif k == "live":
         if "skipped" in obs:
             return []
